@@ -257,6 +257,7 @@ func (f *flusher) flushMetadatasAndUnmarkDirty(key string, b *blob) error {
 				).Error("Could not flush metadata from mem to disk")
 				return fmt.Errorf("flush md: %w", err)
 			}
+			verifYield("flushMD.afterFlush", key)
 		}
 
 		verifYield("flushMD.beforeUnmark", key)
@@ -286,6 +287,7 @@ func (f *flusher) flushMetadata(key, mdSuffix string) error {
 	if err != nil {
 		return fmt.Errorf("mem store get md: %w", err)
 	}
+	verifYield("flushMD.afterMemRead", key)
 	if !ok {
 		err = f.disk.DeleteMetadata(key, md.GetSuffix())
 		if errors.Is(err, os.ErrNotExist) {
